@@ -27,6 +27,34 @@ CHECKS = {
   "World_L0 tracks the peak number of simultaneously not-dead handles and requires every new index to be below it; World_L1 carries the free list (with the deferred-pop length) and the invariant that every dead index below the counter is on it. Exhaustive in small scope, plus long create/delete churn traces on the real code.",
   "bounds as C01; churn traces up to 4000 ops with <=16 live entities",
   "TLA+ model checking (TLC) + trace validation of real executions against World_L0"),
+ "C04": ("model_checking", "4 (C04)",
+  "Store_L1 transcribes each storage kind's data structure (VecStorage slots with uninit/live/moved, DenseVecStorage data/entity_id/data_id with swap-remove, DefaultVecStorage fillers, maps, NullStorage) behind the MaskedStorage mask; TLC checks it against the plain map of World_L0 for every operation sequence in small scope, every explored transition is replayed on all 18 storage instantiations (6 kinds, both wrappers) and long seeded histories (incl. far-apart indices, slices, drain, clear, entry API, get_mut_or_default) are validated by TLC against World_L0.",
+  "<=3 ids exhaustively (incl. layer-boundary ids 63/64), random histories of 100-300 ops; index overflow paths are dead code on this target",
+  "TLA+ model checking (TLC) + trace validation of real executions against World_L0"),
+ "C08": ("model_checking", "4 (C08)",
+  "Every component value carries a unique id and reports its destruction to a ledger; World_L0 keeps for every id moved into a world whether it is held, handed back or destroyed and compares with the instrumented ledger when the world is dropped (every trace ends with teardown); every value seen in any lookup, join, drain or slice must equal the map's (hence be held). Zero-sized components are checked by conservation. Store_L1 carries a destroyed-set ghost so TLC checks 'nothing a lookup can return was destroyed' on the algorithm.",
+  "a never-written slot that is exposed is only seen if its bytes are not the expected value (not a memory-model argument)",
+  "TLA+ model checking (TLC) + trace validation of real executions against World_L0 with an instrumented drop ledger"),
+ "C12": ("model_checking", "4 (C12)",
+  "World_L0 predicts the exact event stream of both change-tracking wrappers (Inserted / Removed / Modified, FlaggedStorage on hand-out, DerefFlaggedStorage on mutable deref, nothing while emission is off, Removed on entity deletion through any path); a reader registered at world creation is read after every operation and TLC compares. Store_L1 models the wrappers' channel writes and is model-checked against the same monitor.",
+  "the Modified that directly follows the Inserted of one vacant-entry insertion on FlaggedStorage is accepted as optional (the property text admits both readings); clear() emits nothing by design",
+  "TLA+ model checking (TLC) + trace validation of real executions against World_L0"),
+ "C13": ("model_checking", "4 (C13)",
+  "Joins over restrict()/restrict_mut() (sequential, lending, parallel) with a scripted choice per item (read / fetch mutably / fetch and write), get_other / get_other_mut asked from every joined item with handles of every status; World_L0 requires visited set = members, reads = direct lookup, writes local, other-entity lookups as the storage itself, Modified events only for items fetched mutably.",
+  "storage kinds rotate over scripts",
+  "TLA+ trace validation of real executions against World_L0 (+ World_MC scripts)"),
+ "C06": ("model_checking", "4 (C06)",
+  "Bits_L1 models the layered bit sets (And/Or/Not/Xor layer by layer, BitIter descent) over layer-boundary indices and TLC checks iteration = set-theoretic result, ascending, for ALL pairs of subsets; Join_L0 specifies a join as a function of the members; the harness runs 33 tuple shapes (all member kinds, arities 1..16) x sequential / lending next / for_each / get-by-entity on boundary-family and random memberships (real, dead, unmerged and far-apart entities) and TLC checks every logged join (items in order, values = direct lookups, writes local, lending get iff alive and member).",
+  "tuple arity is capped at 16 by the library (BitAnd); vec-backed members below index 2^18, bit sets and map-backed members to 2^24-1",
+  "TLA+ model checking (TLC) of the bit-set model + trace validation of real joins against Join_L0"),
+ "C07": ("model_checking", "4 (C07)",
+  "Bits_L1 models producer splitting (any cut leaving a member on each side - a superset of the code's) and TLC checks that every split tree partitions the set; through the add-only hook join::verif_split_fold the real JoinProducer replays scripted split trees, and real rayon pools of 1..64 threads run par_join on the same inputs; TLC checks each logged parallel join against Join_L0 as a multiset (nothing missing, nothing twice, all writes visible).",
+  "rayon's own stealing decisions cannot be enumerated (the hook enumerates the split trees they can produce); data races on distinct indices are not observable",
+  "TLA+ model checking (TLC) of the split model + trace validation of real parallel joins against Join_L0"),
+ "C16": ("model_checking", "4 (C16)",
+  "ChangeSet_MC models ChangeSet::add over the dense storage and TLC checks it lists the arrival-order fold for every pair sequence in scope; every sequence (and random long ones over far-apart indices) is fed to the real ChangeSet by collect / extend / add in several segmentations; amounts are sequences so order of combination is observable; TLC checks listings, joins with a storage, mutable joins, consumption by value (full and partial) and drop accounting against ChangeSet_L0.",
+  "oracle + enumeration; there is little state machine in this property",
+  "TLA+ model checking (TLC) + trace validation against ChangeSet_L0"),
 }
 
 NOT_YET = {
